@@ -89,9 +89,10 @@ def keyOK (fck : Bool) : Key → Bool
 mutual
   /-- CANONICAL: what `flatten` / `canonicalize` can tell apart. Dicts have distinct, expressible
   keys and are not "a list in disguise" (all keys ints forming exactly `0..n-1`); everything
-  below is canonical. Empty containers and leaves are always canonical. -/
+  below is canonical. Empty containers and leaves are always canonical — except the missing-value
+  placeholder, which `canonicalize` treats as "absent" (outside the model, see `Atom`). -/
   def canonical (fck : Bool) : Val → Bool
-    | .leaf _ => true
+    | .leaf a => a != .missing
     | .dict items => !isListifiable items && canonicalItems fck items
     | .list items => canonicalList fck items
   def canonicalItems (fck : Bool) : Items → Bool
